@@ -18,7 +18,7 @@ use std::time::Duration;
 pub const META: Meta = Meta {
     id: "C18",
     level: "fault_enumeration",
-    rule: "Real files in a scratch directory: sizes {0,1,65535,65536,65537,131072,200001} x every range whose ends lie on, one before or one after each 64 KiB read boundary (plus 0, 1, size-1, size; empty and whole ranges) read through get_range and through serve() with a Range header; truncation of the file to each of {0, start, start+1, a boundary-1, a boundary, end-1} between construction and poll k for every k; growth after construction; metadata and ETag under re-open, append, set_modified(+-1 ns, +-1 s), replacement by a same-length same-mtime file; directories and /dev/null as non-regular files. Oracle: std::fs (file bytes, Metadata), non-empty chunks, clean end or an error (never a short clean end, never an empty chunk) within a poll budget owned by the harness. Non-trivial = range crossing a 64 KiB boundary, or a truncation that hits mid-stream; distinct by fingerprint of case.",
+    rule: "Real files in a scratch directory: sizes {0,1,65535,65536,65537,131072,200001} x every range whose ends lie on, one before or one after each 64 KiB read boundary (plus 0, 1, size-1, size; empty and whole ranges) read through get_range and through serve() with a Range header; truncation of the file to each of {0, start, start+1, a boundary-1, a boundary, end-1} between construction and poll k for every k; growth after construction; metadata and ETag under re-open, append, set_modified(+-1 ns, +-1 s), replacement by a same-length same-mtime file; directories and /dev/null as non-regular files; two or three streams of one entity polled alternately. Oracle: std::fs (file bytes, Metadata), non-empty chunks, clean end or an error (never a short clean end, never an empty chunk) within a poll budget owned by the harness. Non-trivial = range crossing a 64 KiB boundary, or a truncation that hits mid-stream; distinct by fingerprint of case.",
     assumptions: &[
         "sandbox filesystem semantics (regular files give full reads; running as root, permission errors are not explored)",
         "an ETag difference after a metadata change is demanded only when std::fs::Metadata itself reports the change",
@@ -226,6 +226,45 @@ async fn stream_case(dir: &Path, c: &Case) -> Result<(&'static str, bool), Fail>
         "plain"
     };
     Ok((label, crosses_boundary(c.start, c.end)))
+}
+
+/// Several streams of ONE entity polled alternately: each must still deliver exactly its own range
+/// (an implementation that keeps per-file state such as a cursor would mix them up).
+async fn interleaved_case(dir: &Path, size: u64, ranges: &[(u64, u64)], order_seed: u64) -> Result<(), Fail> {
+    let p = dir.join("i");
+    write_file(&p, size);
+    let crf = Crf::new(File::open(&p).expect("open"), http::HeaderMap::new()).map_err(|e| Fail { sig: "construct-failed".into(), msg: e.to_string() })?;
+    let mut streams: Vec<_> = ranges.iter().map(|(a, b)| (crf.get_range(*a..*b), Vec::<u8>::new(), false)).collect();
+    let what = format!("size {size}, ranges {ranges:?}, order seed {order_seed}");
+    let mut h = order_seed;
+    let mut polls = 0;
+    while streams.iter().any(|s| !s.2) {
+        h = crate::util::splitmix64(h);
+        let live: Vec<usize> = (0..streams.len()).filter(|i| !streams[*i].2).collect();
+        let i = live[(h % live.len() as u64) as usize];
+        polls += 1;
+        ensure!(polls < 10_000, "too-many-polls", "interleaved streams did not finish; {what}");
+        match next(&mut streams[i].0).await {
+            Item::Panic(m) => return fail("panic", format!("polling stream {i} panicked: {m}; {what}")),
+            Item::End => streams[i].2 = true,
+            Item::Err(e) => return fail("interleaved:error", format!("stream {i} of an unmodified file failed ({e}) while other streams of the same entity were being read; {what}")),
+            Item::Data(d) => {
+                ensure!(!d.is_empty(), "empty-chunk", "stream {i} yielded an empty chunk; {what}");
+                streams[i].1.extend_from_slice(&d);
+            }
+        }
+    }
+    for (i, (a, b)) in ranges.iter().enumerate() {
+        let want = content(*a, (*b - *a) as usize);
+        ensure!(
+            streams[i].1 == want,
+            "interleaved:bytes-differ",
+            "stream {i} ({a}..{b}) delivered {} bytes, first difference at {:?}, while other streams of the same entity were read in between; {what}",
+            streams[i].1.len(),
+            streams[i].1.iter().zip(want.iter()).position(|(x, y)| x != y)
+        );
+    }
+    Ok(())
 }
 
 pub const SIZES: &[u64] = &[0, 1, 65535, 65536, 65537, 131072, 200001];
@@ -495,6 +534,38 @@ pub fn run(cx: &Cx) -> Acc {
             },
         ));
     }
+    // Two or three streams of one entity, polled in pseudo-random alternation.
+    {
+        let seeds: Vec<u64> = (0..cx.tier.pick(16u64, 64u64)).collect();
+        acc.merge(par_units(cx, "interleaved-streams", &seeds, false, "2-3 concurrent streams of one ChunkedReadFile (ranges longer than one read), polled alternately", |cx, &seed, acc| {
+            let scratch = Scratch::new(&format!("c18i-{seed}"));
+            with_runtime(|rt| {
+                let mut h = crate::util::mix(cx.seed, seed);
+                for k in 0..20u64 {
+                    h = crate::util::splitmix64(h);
+                    let size = [131_072u64, 200_001, 262_144, 65_537][(h % 4) as usize];
+                    let n = 2 + (h >> 8) % 2;
+                    let mut ranges = Vec::new();
+                    for j in 0..n {
+                        let hh = crate::util::mix(h, j);
+                        let a = hh % (size / 2);
+                        let b = (a + 65_536 + (hh >> 20) % size.saturating_sub(a + 65_536).max(1)).min(size);
+                        ranges.push((a, b));
+                    }
+                    let case = json!({"interleaved": {"size": size, "ranges": ranges, "order": h}});
+                    let dir = scratch.dir.clone();
+                    let rs = ranges.clone();
+                    let ok = acc.run_case(cx, "interleaved-streams", &case, |_| match rt.block_on(rt.spawn(async move { interleaved_case(&dir, size, &rs, h).await })) {
+                        Ok(r) => r,
+                        Err(e) => fail("panic", format!("task panicked: {e}")),
+                    });
+                    if ok {
+                        acc.note("interleaved-streams", true, crate::util::mix(seed, k), || case.clone());
+                    }
+                }
+            });
+        }));
+    }
     let sizes: Vec<u64> = SIZES.to_vec();
     acc.merge(par_units(cx, "metadata", &sizes, true, "re-open, mtime +-1ns/+-1s, append, same-length same-mtime replacement; non-regular files", |cx, &size, acc| {
         let scratch = Scratch::new(&format!("c18m-{size}"));
@@ -516,6 +587,16 @@ pub fn replay(_cx: &Cx, _phase: &str, case: &Value, acc: &mut Acc) -> Check {
     if case.get("nonregular").is_some() {
         return nonregular_checks(&scratch.dir, acc);
     }
+    if let Some(i) = case.get("interleaved") {
+        let size = i["size"].as_u64().unwrap_or(0);
+        let ranges: Vec<(u64, u64)> = serde_json::from_value(i["ranges"].clone()).unwrap_or_default();
+        let order = i["order"].as_u64().unwrap_or(0);
+        let dir = scratch.dir.clone();
+        return with_runtime(|rt| match rt.block_on(rt.spawn(async move { interleaved_case(&dir, size, &ranges, order).await })) {
+            Ok(r) => r,
+            Err(e) => fail("panic", format!("task panicked: {e}")),
+        });
+    }
     let c: Case = serde_json::from_value(case.clone()).map_err(|e| Fail {
         sig: "replay-decode".into(),
         msg: e.to_string(),
@@ -525,7 +606,7 @@ pub fn replay(_cx: &Cx, _phase: &str, case: &Value, acc: &mut Acc) -> Check {
 
 pub fn health(acc: &Acc) -> Vec<String> {
     let mut v = Vec::new();
-    for l in ["plain", "plain:crosses-boundary", "truncated:error", "grown", "metadata:stable", "metadata:length-change", "nonregular:directory", "nonregular:dev-null"] {
+    for l in ["plain", "plain:crosses-boundary", "truncated:error", "grown", "interleaved-streams", "metadata:stable", "metadata:length-change", "nonregular:directory", "nonregular:dev-null"] {
         if acc.label(l) < 1 {
             v.push(format!("label {l} never seen"));
         }
